@@ -1,11 +1,11 @@
 // fragment: the real Parser struct + its representation invariant (shared by the parser units)
 //@include specs/errcode_simple.rs
 // the error type as the parser units see it: its code, and whether it carries a position (line != 0). Positions are
-// only ever made by Error::syntax, which unit `errors` proves correct (offset inside the input, line / column of that
-// offset); an error made elsewhere (serde's `custom`, derived code) has none until fix_position gives it one.
+// only ever made by Error::syntax, which unit `errors` proves correct (offset `off` inside the text it is given, line /
+// column of that offset); an error made elsewhere (serde's `custom`, derived code) has none until fix_position gives it one.
 #[derive(Debug)]
-pub struct Error { pub code: ErrorCode, pub has_pos: bool }
-pub open spec fn err_ok(e: Error, s: Seq<u8>) -> bool { e.has_pos }
+pub struct Error { pub code: ErrorCode, pub has_pos: bool, pub off: usize }
+pub open spec fn err_ok(e: Error, s: Seq<u8>) -> bool { e.has_pos && e.off <= s.len() }
 
 // `as_str` is `from_utf8_unchecked` (unsafe, outside Verus): assumed to return a view of the same bytes.
 pub uninterp spec fn str_bytes(s: &str) -> Seq<u8>;
@@ -71,6 +71,6 @@ impl<'de, R: Reader<'de>> Parser<R> {
     // Parser::error is verified in unit `errors` (it builds the error with Error::syntax: positioned, and correctly)
     #[verifier::external_body]
     pub fn error(&self, reason: ErrorCode) -> (e: Error)
-        ensures e.has_pos,
-    { Error { code: reason, has_pos: true } }
+        ensures e.has_pos, e.off <= self.read.data().len(),
+    { Error { code: reason, has_pos: true, off: 0 } }
 }
